@@ -500,9 +500,13 @@ def shared_variant_types(dump):
         e = es.get(i)
         while e is not None and e["kind"] in ("option", "box") and fuel > 0: e = es.get(e["id"]); fuel -= 1
         return id(e) if e is not None and e["kind"] in ("newtype", "struct", "enum") else None
-    for e in es.values():
+    # (adjacent tagging: only a union that IS a definition names its content types `<Enum><content>`, enums.rs adjacent_variant
+    # `Name::Required`; an in-line union appends the variant name, so there the types of two variants are distinct)
+    def_ids = {v for v in (dump.get("ref_to_id") or {}).values()}
+    for eid, e in es.items():
         if e["kind"] != "enum" or not isinstance(e.get("tag"), dict): continue
         if "adjacent" in e["tag"]:
+            if eid not in def_ids: continue
             tg, ct = e["tag"]["adjacent"]
             def payload_named(dt):
                 """named types a variant's payload holds by value: the payload itself, or the elements of a tuple payload"""
@@ -516,6 +520,17 @@ def shared_variant_types(dump):
                 return [i for i in ids if i is not None]
             per = [set(payload_named(v["details"])) for v in e["variants"]]
             if any(per[a] & per[b] for a in range(len(per)) for b in range(a + 1, len(per))): out.append((tg, {ct}))
+            # a struct payload is in-lined into the variant: its members' in-line types are named `<Enum><content><member>` for
+            # every variant alike, so two variants with a member of one name share the first one's type
+            seen = {}; hit = False
+            for v in e["variants"]:
+                if isinstance(v["details"], dict) and "struct" in v["details"]:
+                    for p in v["details"]["struct"]:
+                        n = named(p["type_id"])
+                        if n is None: continue
+                        if (_wire(p), n) in seen and seen[(_wire(p), n)] != v["raw_name"]: hit = True
+                        seen.setdefault((_wire(p), n), v["raw_name"])
+            if hit: out.append((tg, {ct}))
         elif "internal" in e["tag"]:
             tg = e["tag"]["internal"]; seen = {}; keys = set()
             for v in e["variants"]:
